@@ -1475,6 +1475,46 @@ func (e *env) roundTrip(k *kind, js, szExp []byte, rootExp []byte) {
 	}
 }
 
+// leadValues: little-endian integers whose encoding starts with the bytes a JSON document can start with ('{', '[',
+// '"', white space followed by '{'). The non-versioned SSZ types begin with a free uint64 (slot, epoch, validator or
+// aggregator index): their valid SSZ encodings can look like the start of JSON, and core.unmarshal must still decode them.
+var leadValues = []uint64{0x7b, 0x7b20, 0x7b0a, 0x7b090d0a20, 0x5b, 0x22, 0x7b00 | 0x7b, 1<<32 | 0x7b}
+
+// leadTweak sets the integer field that comes first in the SSZ encoding of v (false: v's encoding does not begin with a
+// free integer).
+func leadTweak(v any, x uint64) (any, bool) {
+	switch t := v.(type) {
+	case core.SignedSyncMessage:
+		t.Slot = eth2p0.Slot(x)
+		return t, true
+	case core.SyncContribution:
+		t.Slot = eth2p0.Slot(x)
+		return t, true
+	case core.SignedSyncContributionAndProof:
+		if t.Message == nil {
+			return v, false
+		}
+		t.Message.AggregatorIndex = eth2p0.ValidatorIndex(x)
+		return t, true
+	case core.SignedRandao:
+		t.SignedEpoch.Epoch = eth2p0.Epoch(x)
+		return t, true
+	case core.BeaconCommitteeSelection:
+		t.ValidatorIndex = eth2p0.ValidatorIndex(x)
+		return t, true
+	case core.SyncCommitteeSelection:
+		t.ValidatorIndex = eth2p0.ValidatorIndex(x)
+		return t, true
+	case core.SignedVoluntaryExit:
+		if t.Message == nil {
+			return v, false
+		}
+		t.Message.Epoch = eth2p0.Epoch(x)
+		return t, true
+	}
+	return v, false
+}
+
 func slot20(v any) bool {
 	a, ok := v.(core.VersionedAttestation)
 	if !ok {
@@ -2032,8 +2072,17 @@ func gen(a hx.Args, e *env, do func(string)) {
 	sszByType := map[string][][]byte{}
 	for ki := range e.ks {
 		k := &e.ks[ki]
-		for r := 0; r < reps; r++ {
+		nlead := 0
+		if _, ok := leadTweak(k.gen(), 1); ok {
+			nlead = len(leadValues)
+		}
+		for r := 0; r < reps+nlead; r++ {
 			v := k.gen()
+			if r >= reps {
+				// SSZ encodings that begin with the bytes a JSON document can begin with (see leadValues)
+				v, _ = leadTweak(v, leadValues[r-reps])
+				run.Count("values_json_like_ssz_prefix")
+			}
 			if k.typ == "VersionedAttestation" && strings.HasSuffix(k.name, "/noidx") && r == 0 {
 				// the slot the compatibility fallback cannot tell apart (see Props/C14.lean)
 				va := v.(core.VersionedAttestation)
